@@ -23,6 +23,8 @@ def lockstep_run(rep, cfg, rng, what="C03"):
     with impl.quiet():
         S = fr.build(cfg, "all")
         L = oracle_sim.Lockstep(cfg, S, None, rng)
+        if cfg.get("no_spontaneous"):
+            L.wish[:] = L.n + 5          # no vial is let to nucleate by the dice: only a controlled-nucleation trigger can ice it
         wrap = lambda g: fr.ScriptedRng(g, L.script)
         S._rng = wrap(S._rng)
         with fr.patched_rng(wrap):
